@@ -758,6 +758,22 @@ def replay(chk, path, workdir):
         pr = check_props_file(prop)
         print("proof side ok:", pr["ok"], pr["broken"])
         return 0 if pr["ok"] else 1
+    if cj.get("checker") == "hist":
+        import fam_world
+        c = fam_world.replay_hist(cj)       # re-runs the operations on the real contracts
+        r = run_coq_cases(prop, [c], workdir, "replay")
+        tr = coq_eval([c.trace_term(prop)], workdir, "trace")[0]
+        rows = re.findall(r"\((\d+), (true|false), (true|false), (true|false), (true|false)\)", tr)
+        for (i, mok, iok, agree, mon), st in zip(rows, c.h.steps):
+            if not (mok == iok and agree == "true" and mon == "true"):
+                print("step %s: model_ok=%s impl_ok=%s snapshots_agree=%s monitor=%s  %s"
+                      % (i, mok, iok, agree, mon, fam_world.op_line(st[0])[:160]))
+        print("agree=%s property_ok=%s known_class=%s" % (not r["disagree"], not r["propfail"] and not r["known"],
+                                                          bool(r["known"])))
+        if r["propfail"] or r["disagree"]:
+            print("VIOLATION property=%s replay=%s%s" % (prop, path, "" if r["propfail"] else " no-failing-input-found"))
+            return 1
+        return 0
     args = _unjson_args(cj["args"])
     c = Case(cj["checker"], args, list(zip(cj["calls"], cj["rtypes"])), cj.get("stream", "replay"))
     r = run_both(prop, [c], workdir, "replay")
